@@ -1023,12 +1023,12 @@ package leader
 //@   on ret ConnectionMonitor.Status as s set statusSeen = s.result
 //@   on load kvElection.isLeader as l set sawLeader = l.value
 //@   on load disconnectHandler.generation as l set isCurrent = l.value == generation
-//@   on call becomeFollower set demote_cause = (d.election.connectionMonitor == nil || statusSeen == 1) && sawLeader
+//@   on call becomeFollower set demote_cause = (d.election.connectionMonitor == nil || (statusSeen != 0 && statusSeen != 2)) && sawLeader
 //@   on call becomeFollower assert C11.expiry_is_current: isCurrent
 //@   on ret becomeFollower as r set cleared = r.result
 //@   on load kvElection.onDemote as l set demoteSet = l.value != nil
-//@   ensures C11.expiry_demotes: isCurrent && (d.election.connectionMonitor == nil || statusSeen == 1) && sawLeader ==> calls(becomeFollower) == 1 && (demoteSet ==> calls(onDemote) == 1)
-//@   ensures C11.no_demotion_if_reconnected: d.election.connectionMonitor != nil && statusSeen != 1 ==> calls(becomeFollower) == 0 && calls(onDemote) == 0
+//@   ensures C11.expiry_demotes: isCurrent && (d.election.connectionMonitor == nil || (statusSeen != 0 && statusSeen != 2)) && sawLeader ==> calls(becomeFollower) == 1 && (demoteSet ==> calls(onDemote) == 1)
+//@   ensures C11.no_demotion_if_reconnected: d.election.connectionMonitor != nil && (statusSeen == 0 || statusSeen == 2) ==> calls(becomeFollower) == 0 && calls(onDemote) == 0
 //@   ensures C11+C08.no_demotion_if_not_leader: !sawLeader ==> calls(becomeFollower) == 0 && calls(onDemote) == 0
 //@   ensures C08+C11.demote_iff_claim_cleared: calls(onDemote) == ((cleared && demoteSet) ? 1 : 0)
 
@@ -1058,6 +1058,9 @@ package leader
 //@   on ret validateToken set ranVT = true
 //@   on call handleReconnectVerificationFailed set reconnect_failed = getErr != nil || (ranVT && (vt1 != nil || !vt0))
 //@   on call ConnectionMonitor.SetStatus assert C11.connected_only_after_validation: ranVT && vt0 && vt1 == nil
+//@   ghost lastStatus Int = -1
+//@   on ret ConnectionMonitor.Status as s set lastStatus = s.result
+//@   on call ConnectionMonitor.SetStatus as c assert C11.connected_only_while_the_reconnect_stands: c.status == 0 && lastStatus == 2
 //@   ensures C11.reconnect_verifies: calls(handleReconnectVerificationFailed) == ((getErr != nil || (ranVT && (vt1 != nil || !vt0))) ? 1 : 0)
 //@   ensures C11.keeps_only_if_valid: calls(handleReconnectVerificationFailed) == 0 ==> ranVT && vt0 && vt1 == nil
 
